@@ -37,6 +37,17 @@ def generate(rng, tier, shard, nshards):
         yield gops.event("treesum", dict(base, how="treesum", twice=(gi % 2 == 0)), site="treesum", feat=feat)
         if srn == "Rat":
             yield gops.event("explen", {k: v for k, v in base.items() if k not in ("pre", "late")}, site="expected_length", feat=feat)
+    if shard == 1:
+        # proper right-linear grammars whose inner blocks converge slowly (loops of weight close to one): every total
+        # is one; the blocks above a slowly converging block must still be evaluated
+        # (6666/6667)^100000 = 3e-7: the default iteration cap is reached in the inner block while its value is already
+        # within the fixed-point tolerance of one; slower loops would be cut off by `maxiter` by design
+        for loop in ([6666, 6667], [2047, 2048], [1, 2]):
+            rest = [loop[1] - loop[0], loop[1]]
+            G = {"S": "#0", "V": ["a", "b"],
+                 "rules": [{"w": [1, 2], "h": "#0", "b": ["a", "#1"]}, {"w": [1, 2], "h": "#0", "b": []},
+                           {"w": loop, "h": "#1", "b": ["b", "#1"]}, {"w": rest, "h": "#1", "b": []}]}
+            yield gops.event("treesumrl", {"G": G}, site="agenda[slow convergence]", feat="slow-convergence", timeout=300)
     if shard == 0:
         # many contributions that are individually below the convergence tolerance (large vocabularies):
         # the total is far above it and must be reported
